@@ -8,6 +8,7 @@ def run(ctx: Ctx) -> None:
     t1_grid.run_grid_tables(ctx)
     t1_grid.run_lattice(ctx)
     t1_grid.run_cube(ctx)
+    t1_grid.run_cube_api(ctx)
     t1_grid.run_singleton(ctx)  # anchors on grids with one-sample axes: index 0 = origin, (n-1)/2 = 0 = center
     t2_rot.run_homogeneous(ctx)  # hmm / homogeneous_transform / homogeneous_matrix for every operand form (anchor: core/linalg.py)
     e4(ctx, ["deepali.core.grid", "deepali.core.cube", "deepali.core.linalg", "deepali.core.math"])
@@ -18,6 +19,7 @@ def run(ctx: Ctx) -> None:
     ctx.floor("T1.two-grids", 64)
     ctx.floor("T1.lattice", 40)
     ctx.floor("T1.cube", 10)
+    ctx.floor("T1.cube-api", 6)
     ctx.floor("T1.itk-singleton", 5)
     ctx.floor("T6.compose", 9)
 
@@ -55,6 +57,13 @@ def mutants(prog):
         ("origin_: internal float size", G, "Grid.origin_", "size = self.size_tensor()", "size = self._size", "fractional-size"),
         ("cube_extent: internal float size", G, "Grid.cube_extent", "n = self.size_tensor()", "n = self._size", "T1."),
         ("cube_to_world: explicit False treated as None", G, "Grid.cube_to_world", "if align_corners is None:\n        align_corners = self._align_corners\n    axes = Axes.from_align_corners(align_corners)", "axes = Axes.from_align_corners(align_corners or self._align_corners)", "T1.apply"),
+        ("two cubes: composition order", "deepali.core.cube", "Cube.transform", "return hmm(world_to_cube, cube_to_world)", "return hmm(cube_to_world, world_to_cube)", "T1.cube-api"),
+        ("two cubes: world->cube of this cube", "deepali.core.cube", "Cube.transform", "world_to_cube = to_cube.transform(Axes.WORLD, Axes.CUBE, vectors=vectors)", "world_to_cube = self.transform(Axes.WORLD, Axes.CUBE, vectors=vectors)", "T1.cube-api"),
+        ("cube_vectors_transform returns the point map", "deepali.core.cube", "cube_vectors_transform", "vectors=True", "vectors=False", "T1.cube-api"),
+        ("grid_vectors_transform returns the point map", G, "grid_vectors_transform", "vectors=True", "vectors=False", "T1.cube-api"),
+        ("Cube.from_seq: origin flag ignored", "deepali.core.cube", "Cube.from_seq", "if origin:", "if False:", "T1.cube-api"),
+        ("Grid.inverse_transform: cube axes of the other convention", G, "Grid.inverse_transform", "Axes.CUBE_CORNERS if self._align_corners else Axes.CUBE", "Axes.CUBE if self._align_corners else Axes.CUBE_CORNERS", "T1.cube-api"),
+        ("world->cube ignores the target cube", "deepali.core.cube", "Cube.transform", "cube = self if to_cube is None else to_cube", "cube = self", "T1.cube-api"),
     ]
     for name, mod, fn, old, new, expect in specs:
         ov = source_sub(prog, mod, fn, old, new)
